@@ -15,6 +15,10 @@ CHECKS = {
     "C03": ("2 (C03)", "The real socket_read_task is driven over streams of 2-3 encoder-produced frames split at solver-chosen offsets "
                   "(every 1-cut partition, 2-cut partitions, the all-1-byte partition, marker-free symbolic garbage around frames); "
                   "delivered frames / journal rows must equal the frames sent."),
+    "C04": ("2 (C04)", "One inductive step of the real _process_message from an arbitrary logged-on state (state, role, next-in, next-out, "
+                  "resend watermark symbolic under the representation invariant) with an arbitrary inbound message (kind, MsgSeqNum, "
+                  "PossDupFlag, NewSeqNo, BeginSeqNo symbolic), plus two-step unrollings; oracle = the property's delivery / counter / "
+                  "ResendRequest clauses."),
     "C08": ("2 (C08)", "Operation sequences on the real Journaler (FakeSQLite) with the crash slot as a solver variable over every point "
                   "before/after every SQL statement and commit, plus normal close; after the crash a fresh Journaler must show a state "
                   "at an operation boundary. Counterexamples and sampled witnesses are re-run on the real sqlite3 with os._exit in a child."),
